@@ -5,6 +5,8 @@ import DsdVerif.Lemmas.PyRotateOnce
 import DsdVerif.Lemmas.PyMakeLoopIndex
 import DsdVerif.Lemmas.PySplit
 import DsdVerif.Lemmas.PyRotatePt
+import DsdVerif.Lemmas.PyStrandTable
+import DsdVerif.Lemmas.PyDb
 import DsdVerif.Props.C08Loop
 import DsdVerif.Props.C09Split
 import DsdVerif.Props.C06
@@ -212,6 +214,127 @@ set_option synthInstance.maxSize 2048 in
 theorem py_rotate_empty_stab_faults :
     py_rotate_complex_pt 5 [] [[none], [none]] (some 1) = .error (.fault "IndexError") := by decide
 
+/-! ### the rest of complex_utils.py: strand tables and the `_db` generators
+
+`make_strand_table` and `strand_table_to_sequence` are translated once per typing (translator/pyfunc.py, "typed instances"):
+a list of names (`isinstance(seq, list)`, `join=False`) and a `str` / one-character names (`.split`, `join=True`). -/
+
+/-- `make_strand_table` on a Python list of names as written in the source (`groupby` on `x != strand_break`) is the model's
+    `makeStrandTableList` for every list and every one-character break name; any other break name fails the source's
+    `assert len(strand_break) == 1` -/
+theorem py_make_strand_table_list_eq (seq : List String) (brk : String) :
+    py_make_strand_table_list seq brk =
+      if brk.length = 1 then .ok (makeStrandTableList brk seq) else .error .assertion :=
+  PyEq.make_strand_table_list_eq seq brk
+
+/-- … in particular with the default break name "+" it never raises -/
+theorem py_make_strand_table_list_default (seq : List String) :
+    py_make_strand_table_list seq "+" = .ok (makeStrandTableList "+" seq) := by
+  rw [py_make_strand_table_list_eq, if_pos PyEq.plus_len]
+
+/-- `make_strand_table` on a `str` as written in the source (`seq.split(strand_break)`) never raises and is the model's
+    `makeStrandTableStr`, for every text and break character -/
+theorem py_make_strand_table_str_eq (seq : List Char) (brk : Char) :
+    py_make_strand_table_str seq brk = .ok (makeStrandTableStr brk seq) := PyEq.make_strand_table_str_eq seq brk
+
+/-- `strand_table_to_sequence(st, brk, join=False)` as written in the source (`reduce`) is the model's
+    `strandTableToSequence`: the strands joined by the break name, TypeError for the empty table -/
+theorem py_strand_table_to_sequence_list_eq (st : List (List String)) (brk : String) :
+    py_strand_table_to_sequence_list st brk = strandTableToSequence brk st := PyEq.strand_table_to_sequence_list_eq st brk
+
+/-- `strand_table_to_sequence(st, brk, join=True)` on one-character names as written in the source (`str.join`) never
+    raises and is the model's `strandTableToSequenceStr` -/
+theorem py_strand_table_to_sequence_str_eq (st : List (List Char)) (brk : Char) :
+    py_strand_table_to_sequence_str st brk = .ok (strandTableToSequenceStr brk st) :=
+  PyEq.strand_table_to_sequence_str_eq st brk
+
+/-- `list(split_complex_db(seq, sst))` (`join=False`) as written in the source is, for EVERY list of names, structure and
+    fuel, the composition of the model functions: `makePairTable sst`, `splitPt` of the strand table of `seq` and that pair
+    table, then (`strandTableToSequence`, `ptToDb`) on every part; errors are those of the first step that fails -/
+theorem py_split_complex_db_eq (fuel : Nat) (seq : List String) (sst : List Char) :
+    py_split_complex_db fuel seq sst =
+      (makePairTable sst '+' >>= fun pt => splitPt fuel (makeStrandTableList "+" seq) pt >>= fun parts =>
+        parts.mapM (fun p => (strandTableToSequence "+" p.1).map (fun s => (s, ptToDb p.2 '+')))) :=
+  PyEq.split_complex_db_eq fuel seq sst
+
+/-- on a well-formed input (the structure has a pair table `pt`, the names have as many strands as it) the source's
+    `split_complex_db` with fuel `len(pt) + 1` raises nothing: it yields, for every part `splitPt` returns - the connected
+    components, `py_split_spec` -, the names joined by "+" and the dot-bracket text of the part -/
+theorem py_split_complex_db_wellformed (seq : List String) (sst : List Char) (pt : PairTable)
+    (h : makePairTable sst '+' = .ok pt) (hl : (makeStrandTableList "+" seq).length = pt.length) :
+    ∃ parts, splitPt (pt.length + 1) (makeStrandTableList "+" seq) pt = .ok parts ∧
+      py_split_complex_db (pt.length + 1) seq sst = .ok (parts.map (fun p => (joinWith "+" p.1, ptToDb p.2 '+'))) := by
+  obtain ⟨parts, idxs, hsp, hlen, hq, _, _⟩ := C09.split_spec sst '+' pt (makeStrandTableList "+" seq) h hl
+  refine ⟨parts, hsp, ?_⟩
+  rw [py_split_complex_db_eq, h]
+  simp only [bind, Except.bind, hsp]
+  apply PyEq.mapM_ok
+  intro p hp
+  obtain ⟨k, hk⟩ := List.mem_iff_getElem?.mp hp
+  have hkl : k < idxs.length := by rw [hlen]; exact (List.getElem?_eq_some_iff.mp hk).1
+  obtain ⟨po, hidx⟩ := hq k p _ hk (List.getElem?_eq_getElem hkl)
+  have hp1 : p.1 ≠ [] := by
+    generalize idxs[k] = idx at po hidx
+    cases idx with
+    | nil => exact absurd rfl hidx
+    | cons i0 is =>
+      have hb := po.bound i0 (by simp)
+      rw [po.strands, List.filterMap_cons, List.getElem?_eq_getElem (by omega)]
+      simp
+  exact PyEq.dbPart_ok p hp1
+
+/-- `list(rotate_complex_db(seq, sst, turns))` (`join=False`) as written in the source, for EVERY input: the pair table (or
+    its error), the source's assertion that strands and rows are equally long, the source's `rotate_complex_pt`, then
+    (`strandTableToSequence`, `ptToDb`) on every rotation -/
+theorem py_rotate_complex_db_eq_pt (fuel : Nat) (seq : List String) (sst : List Char) (turns : Option Nat) :
+    py_rotate_complex_db fuel seq sst turns =
+      (makePairTable sst '+' >>= fun pt =>
+        if PyEq.sameLengths (makeStrandTableList "+" seq) pt then
+          py_rotate_complex_pt fuel (makeStrandTableList "+" seq) pt turns >>= fun parts =>
+            parts.mapM (fun p => (strandTableToSequence "+" p.1).map (fun s => (s, ptToDb p.2 '+')))
+        else .error .assertion) :=
+  PyEq.rotate_complex_db_eq_pt fuel seq sst turns
+
+/-- `list(rotate_complex_db(seq, sst))` (`turns=None`, `join=False`) as written in the source is the composition of the
+    model functions whenever `seq` has a strand and the fuel exceeds the number of strands: the error of `makePairTable`,
+    AssertionError if a strand and its row differ in length, else every rotation of `rotationsPt` as
+    (names joined by "+", dot-bracket text) -/
+theorem py_rotate_complex_db_eq (fuel : Nat) (seq : List String) (sst : List Char)
+    (hs : makeStrandTableList "+" seq ≠ []) (hf : ∀ pt, makePairTable sst '+' = .ok pt → pt.length < fuel) :
+    py_rotate_complex_db fuel seq sst none =
+      (makePairTable sst '+' >>= fun pt =>
+        if PyEq.sameLengths (makeStrandTableList "+" seq) pt then
+          .ok ((rotationsPt (makeStrandTableList "+" seq) pt).map (fun p => (joinWith "+" p.1, ptToDb p.2 '+')))
+        else .error .assertion) :=
+  PyEq.rotate_complex_db_eq fuel seq sst hs hf
+
+/-- on a well-formed input (the strand table of the names has the shape of the pair table of the structure) the source's
+    `rotate_complex_db` raises nothing and yields all rotations, the unrotated complex first -/
+theorem py_rotate_complex_db_wellformed (seq : List String) (sst : List Char) (pt : PairTable)
+    (h : makePairTable sst '+' = .ok pt)
+    (hshape : (makeStrandTableList "+" seq).map List.length = pt.map List.length) :
+    py_rotate_complex_db (pt.length + 1) seq sst none =
+      .ok ((rotationsPt (makeStrandTableList "+" seq) pt).map (fun p => (joinWith "+" p.1, ptToDb p.2 '+'))) := by
+  have hne : makeStrandTableList "+" seq ≠ [] := by
+    intro e
+    rw [e] at hshape
+    have hp : pt = [] := by simpa using hshape.symm
+    have := C06.mpt_shape sst '+' pt h
+    rw [hp] at this
+    exact PyEq.splitOn_ne_nil '+' sst (by simpa using this.symm)
+  have hsl := PyEq.sameLengths_of_shape _ pt hshape
+  rw [py_rotate_complex_db_eq (pt.length + 1) seq sst hne (by intro pt' h'; rw [h] at h'; cases h'; omega), h]
+  simp only [bind, Except.bind, hsl, if_true]
+
+set_option synthInstance.maxSize 2048 in
+/-- without a strand in `seq` the source fails differently from what a net-effect reading would say: for one row TypeError
+    (`reduce` of the empty strand table), for several rows IndexError (`stab[-1]`; CPython reports the TypeError of the first
+    value the generator had already yielded - the one place where "generators as lists" changes the KIND of the exception) -/
+theorem py_rotate_complex_db_no_strand :
+    py_rotate_complex_db 5 [] ['.'] none = .error (.fault "TypeError") ∧
+    py_rotate_complex_db 5 ["+"] ['.', '+', '.'] none = .error (.fault "IndexError") := by
+  constructor <;> decide
+
 /-- non-vacuity: a concrete two-strand complex meets the hypotheses of `py_rotate_pairs` -/
 example : C07.Aligned ["a", "+", "b"] ['(', '+', ')'] ∧ ["a", "+", "b"].idxOf? "+" = some 1 ∧
     matchW (C07.word ['(', '+', ')']) = some [some 2, none, some 0] := by
@@ -224,3 +347,13 @@ example : C07.Aligned ["a", "+", "b"] ['(', '+', ')'] ∧ ["a", "+", "b"].idxOf?
   | (n + 3) => simp
 
 end Dsd.PyFuncs
+
+#print axioms Dsd.PyFuncs.py_make_strand_table_list_eq
+#print axioms Dsd.PyFuncs.py_make_strand_table_str_eq
+#print axioms Dsd.PyFuncs.py_strand_table_to_sequence_list_eq
+#print axioms Dsd.PyFuncs.py_strand_table_to_sequence_str_eq
+#print axioms Dsd.PyFuncs.py_split_complex_db_eq
+#print axioms Dsd.PyFuncs.py_split_complex_db_wellformed
+#print axioms Dsd.PyFuncs.py_rotate_complex_db_eq_pt
+#print axioms Dsd.PyFuncs.py_rotate_complex_db_eq
+#print axioms Dsd.PyFuncs.py_rotate_complex_db_wellformed
